@@ -9,6 +9,7 @@ CONSTANTS
   Deltas <- MCDeltas
   OffsetVecs <- MCOffsetVecsQuick
   MaxLossVecs <- MCMaxLossVecsQuick
+  ProfKinds <- MCProfKinds
 INIT Init
 NEXT Next
 INVARIANT TypeOK
@@ -18,5 +19,6 @@ INVARIANT NeverAmplifies
 INVARIANT EqualisedToTarget
 INVARIANT BelowTargetLossOnly
 INVARIANT TargetIsDegreeElseNode
+INVARIANT PathLossByListing
 INVARIANT LevelByKind
 PROPERTY NeverAmplifiesStep
